@@ -85,13 +85,13 @@ def inputs(rng, tier):
 def run(tier):
     rp = Report("C07", tier)
     rng = random.Random(common.seed())
-    theorems = ["Props.C07.C07_parse_context_agrees", "Props.C07.C07_recovery_accepts_iff", "Props.C07.C07_recovery_same_code",
+    theorems = ["Props.C07.C07_entry_points_agree", "Props.C07.C07_parse_context_agrees", "Props.C07.C07_recovery_accepts_iff", "Props.C07.C07_recovery_same_code",
                 "Props.C07.C07_recovery_same_trees", "Props.C07.C07_strict_refines", "Props.C07.C07_batch_ok",
                 "Props.C07.C07_batch_first_failure", "Props.C07.C07_batch_all_ok"]
     try:
         with common.Lock():
             common.stage_harness()
-            ok_inst, ok_props, _, logs = common.coq_stage(rp, ["theories/Proofs/LoopsP.vo"], "theories/Props/C07.v", theorems)
+            ok_inst, ok_props, _, logs = common.coq_stage(rp, ["theories/Proofs/LoopsP.vo", "theories/Proofs/WrappersP.vo"], "theories/Props/C07.v", theorems)
     except common.StageError as e:
         return common.stage_fail(rp, e)
     if not ok_inst or not ok_props:
